@@ -99,7 +99,7 @@ func genCase(t *rapid.T) Case {
 		for i := range c.Conns {
 			switch c.Conns[i].Kind {
 			case "ssl-ok":
-				c.Conns[i].Kind = "ok"
+				c.Conns[i].Kind = "tls-ok"
 			case "ssl-cancel":
 				c.Conns[i].Kind = "tls-cancel"
 			}
